@@ -7,6 +7,7 @@ pub(crate) mod chan;
 pub(crate) mod core;
 pub(crate) mod crashguard;
 pub(crate) mod pool;
+pub(crate) mod taskhb;
 pub(crate) mod scell;
 pub(crate) mod tasks;
 pub(crate) mod units14;
@@ -103,12 +104,16 @@ fn run_property(prop: &'static str, tier: &str, seed: u64) -> i32 {
             if !shuttle && prop == "C04" {
                 let n = ctx.n(200, 4_000);
                 ctx.run(&pool::PoolSub, n, w(4));
+                let n = ctx.n(3_000, 60_000);
+                ctx.run(&pool::PoolVisSub, n, w(4));
             }
             if !shuttle {
                 let n = ctx.n(200_000, 4_000_000);
                 ctx.run(&tasks::TaskSeqSub, n, w(16));
                 let n = ctx.n(2_000, 40_000);
                 ctx.run(&tasks::TaskConcSub { iters: 10 }, n, w(4));
+                let n = ctx.n(6_000, 120_000);
+                ctx.run(&taskhb::TaskHbSub, n, w(4));
             } else {
                 let n = ctx.n(1_600, 32_000);
                 ctx.run(&tasks::TaskConcSub { iters: 200 }, n, w(16));
@@ -185,6 +190,8 @@ fn replay(path: &str) -> i32 {
         "c13-task-conc-shuttle" => replay_one(&tasks::TaskConcSub { iters: 2000 }, p, case, path),
         "c13-task-conc-threads" => replay_one(&tasks::TaskConcSub { iters: 200 }, p, case, path),
         "c04-pool-idle" => replay_one(&pool::PoolSub, p, case, path),
+        "c04-pool-visibility" => replay_one(&pool::PoolVisSub, p, case, path),
+        "c13-task-handover" => replay_one(&taskhb::TaskHbSub, p, case, path),
         "c12-chan-poll" => replay_one(&chan::ChanPollSub, p, case, path),
         "c12-queue-conc-shuttle" => replay_one(&chan::QConcSub { iters: 2000 }, p, case, path),
         "c12-queue-conc-threads" => replay_one(&chan::QConcSub { iters: 200 }, p, case, path),
@@ -237,6 +244,10 @@ fn gen_batch(prop: &str, n: usize, seed: u64) -> i32 {
         "C04" | "C05" | "C13" => {
             sample(&tasks::TaskSeqSub, prop, n, seed, &mut out);
             sample(&tasks::TaskConcSub { iters: 1 }, prop, n, seed, &mut out);
+            sample(&taskhb::TaskHbSub, prop, n, seed, &mut out);
+            if prop == "C04" {
+                sample(&pool::PoolVisSub, prop, n, seed, &mut out);
+            }
         }
         "C12" => {
             sample(&chan::ChanPollSub, prop, n, seed, &mut out);
@@ -265,6 +276,8 @@ fn eval_once(sub: &str, case: &serde_json::Value) -> Option<Verdict> {
     match sub {
         "c13-task-seq" => go(&tasks::TaskSeqSub, case),
         "c13-task-conc-threads" => go(&tasks::TaskConcSub { iters: 1 }, case),
+        "c04-pool-visibility" => go(&pool::PoolVisSub, case),
+        "c13-task-handover" => go(&taskhb::TaskHbSub, case),
         "c12-chan-poll" => go(&chan::ChanPollSub, case),
         "c12-queue-conc-threads" => go(&chan::QConcSub { iters: 1 }, case),
         "c12-chan-threads" => go(&chan::ChanThrSub { iters: 1 }, case),
